@@ -93,16 +93,31 @@ fn gen_items(rng: &mut Rng, n: usize, consts: bool, datetime: bool) -> Vec<GItem
     out
 }
 
+/// The scratch trees live below /verif, whose own .gitignore lists `target/`; the walker honours ignore files of parent
+/// directories. An ignore file at the root of the tree takes the rule back, so that `target` is the ordinary, visible,
+/// non-ignored directory the workload means it to be.
+fn unignore_tool_directories(root: &Path) {
+    for d in ["src_root", "second_root", "third_root"] {
+        if root.join(d).is_dir() {
+            let _ = std::fs::write(root.join(d).join(".gitignore"), "!target/\n!target/**\n!build/\n!out/\n!node_modules/\n!vendor/\n!tmp/\n!debug/\n");
+        }
+    }
+    let _ = std::fs::write(root.join(".ignore"), "!target/\n!target/**\n");
+}
+
 /// distribute items over `k` files in crates / directories; `salt` selects the partition
 fn layout(items: &[GItem], k: usize, crates: usize, rng: &mut Rng) -> Tree {
     let crate_names = ["alpha_core", "beta-util", "gamma", "delta_x", "eps"];
     let mut paths: Vec<String> = vec![];
     for i in 0..k {
         let c = crate_names[i % crates.max(1)];
-        let p = match rng.below(4) {
+        // directory names that mean something to other tools (cargo, npm, git) are ordinary source directories here
+        let p = match rng.below(6) {
             0 if !paths.contains(&format!("{c}/src/lib.rs")) => format!("{c}/src/lib.rs"),
             1 => format!("{c}/src/f{i}.rs"),
             2 => format!("{c}/src/sub{}/m{i}.rs", i % 3),
+            4 => format!("{c}/src/{}/t{i}.rs", ["target", "build", "node_modules", "vendor", "out", "tests"][i % 6]),
+            5 => format!("{c}/src/source/{}/u{i}.rs", ["target", "debug", "tmp"][i % 3]),
             _ => format!("{c}/src/deep/er/x{i}.rs"),
         };
         paths.push(p);
@@ -481,6 +496,7 @@ pub fn run(ctx: &Ctx) -> (Spec, Report) {
             f.path = format!("src_root/{}", f.path);
         }
         write_tree(&root, &files);
+        unignore_tool_directories(&root);
         // every other job runs under a configuration with all file-only tables filled
         let cfg = if j % 2 == 0 { rich_cfg(job.lang) } else { LangCfg::basic(job.lang) };
         let lname = job.lang.name();
@@ -560,6 +576,7 @@ pub fn run(ctx: &Ctx) -> (Spec, Report) {
                 f.path = format!("{}/{}", root_names[ri], f.path);
             }
             write_tree(&root, &files);
+            unignore_tool_directories(&root);
             let mut dirs: Vec<&str> = root_names[..n_roots].iter().copied().filter(|d| root.join(d).is_dir()).collect();
             rng.shuffle(&mut dirs);
             rep.count(&format!("runs_resplit_with_{}_input_directories", dirs.len()), 1);
@@ -600,7 +617,7 @@ pub fn run(ctx: &Ctx) -> (Spec, Report) {
     }
     let spec = Spec {
         level: "exploration",
-        rule: "real hooked binary on generated trees (structs, enums, aliases, consts, a quarter of them annotated as #[typeshare::typeshare], over k files in several directories/crates, cross-file references): every permutation of arrival order for k <= 5 (quick) / 6 (thorough) via TYPESHARE_VERIF_ORDER, seeded permutations for k = 8/12/24, thread counts 1..16 x injected per-path delays (distinct delivered orders counted from the hook log), overlapping input directories (each file reachable through 2-4 of them) under 8 thread counts with and without delays, repeated processes for fresh hash seeds incl. a name defined in two other crates behind a re-export, and 5 re-splits of the same items; single- and multi-file mode, 6 languages; oracle = byte equality with the first run; thorough adds ThreadSanitizer and Miri (many-seeds) runs of the CLI; distinct = (workload, language, mode, more-than-one-order-observed)".into(),
+        rule: "real hooked binary on generated trees (structs, enums, aliases, consts, a quarter of them annotated as #[typeshare::typeshare], over k files in several directories/crates (among them directories called target, build, node_modules, vendor, out, tests, debug, tmp), cross-file references): every permutation of arrival order for k <= 5 (quick) / 6 (thorough) via TYPESHARE_VERIF_ORDER, seeded permutations for k = 8/12/24, thread counts 1..16 x injected per-path delays (distinct delivered orders counted from the hook log), overlapping input directories (each file reachable through 2-4 of them) under 8 thread counts with and without delays, repeated processes for fresh hash seeds incl. a name defined in two other crates behind a re-export, and 5 re-splits of the same items; single- and multi-file mode, 6 languages; oracle = byte equality with the first run; thorough adds ThreadSanitizer and Miri (many-seeds) runs of the CLI; distinct = (workload, language, mode, more-than-one-order-observed)".into(),
         assumptions: vec![
             "the collector hook delivers exactly the permutation requested (its log is read back)".into(),
             "same-named items in one single-file run are outside the domain (the output would define a name twice)".into(),
